@@ -166,6 +166,38 @@ def ob_pairs(form):
     return h
 
 
+def ob_synthetic_plus():
+    """the one tree the rewriter synthesises itself (extra_files_add): ArithmeticNode('+', <old kwarg value>, [new]) around an arbitrary
+    existing expression that is NOT wrapped in a ParenthesizedNode - the printer has to add the parentheses the precedence needs"""
+    def h():
+        g = Gen(small=True)
+        old = g.expr(1, 'o')
+        text = "executable('x', 'a.c', extra_files : " + old + ")\n"
+        try:
+            ast = mp.Parser(text, 'meson.build').parse()
+            want = mp.Parser("executable('x', 'a.c', extra_files : (" + old + ") + ['n.txt'])\n", 'meson.build').parse()
+        except mp.ParseException:
+            cover('source-rejected'); return
+        fn = ast.lines[0]
+        key = [k for k in fn.args.kwargs][0]
+        oldnode = fn.args.kwargs[key]
+        sym = mp.SymbolNode(mp.Token('', 'meson.build', 0, 0, 0, None, '+'))
+        br = lambda c: mp.SymbolNode(mp.Token('', 'meson.build', 0, 0, 0, None, c))
+        arr_args = mp.ArgumentNode(mp.Token('', 'meson.build', 0, 0, 0, None, '[]'))
+        arr_args.arguments = [new_str('n.txt')]
+        chosen = mp.ArrayNode(br('['), arr_args, br(']'))
+        fn.args.kwargs = {k: v for k, v in fn.args.kwargs.items() if k is not key}
+        fn.args.kwargs[key] = mp.ArithmeticNode('+', oldnode, sym, chosen)
+        out = printed(ast)
+        try:
+            ast2 = mp.Parser(out, 'meson.build').parse()
+        except mp.ParseException:
+            check(False, 're-printed statement no longer parses'); return
+        same_tree(want, ast2, 'statement with a synthesised old + [new] kwarg')
+        cover('roundtrip')
+    return h
+
+
 NFORMS = 13
 
 
@@ -288,6 +320,7 @@ def obligations(tier):
         out.append(Obligation('operator-pairs[%d]' % f, ob_pairs(f), dict(form=f, operators='all pairs of ' + repr(BIN)), labels=('roundtrip',), max_paths=5000000))
     if not q:
         out.append(Obligation('reprint[depth 2]', ob_reprint(2), dict(depth=2, operators=BIN2), labels=('roundtrip', 'source-rejected'), max_paths=50000000, path_timeout=300))
+    out.append(Obligation('synthetic-plus', ob_synthetic_plus(), dict(old_value='every depth-1 expression shape', new='old + [str] as Rewriter.add_src_or_extra builds it'), labels=('roundtrip',), max_paths=5000000))
     for n in range(0, 4 if q else 5):
         out.append(Obligation('string[%d]' % n, ob_string(n, False), dict(length=n, alphabet=SA + 'x0'), labels=('roundtrip',) , max_paths=5000000))
     for n in range(0, 3 if q else 4):
